@@ -28,6 +28,8 @@ type result struct {
 	Unclosed int
 }
 
+var poisoned bool
+
 func main() {
 	in := bufio.NewReaderSize(os.Stdin, 1<<20)
 	out := bufio.NewWriter(os.Stdout)
@@ -41,14 +43,27 @@ func main() {
 				os.Exit(2)
 			}
 			r := result{Name: j.Sc.Name, Keys: map[string]int{}}
+			if poisoned {
+				// a blocked run left its goroutines behind: later observations in
+				// this process would be polluted by them
+				r.Keys["SKIPPED (an earlier run in this process blocked)"] = j.Runs
+				b, _ := json.Marshal(r)
+				out.Write(b)
+				out.WriteByte('\n')
+				out.Flush()
+				continue
+			}
 			for k := 0; k < j.Runs; k++ {
 				o := e1n.Run(&j.Sc)
 				r.Keys[o.Key]++
 				if o.Leaked {
 					r.Leaked++
+					poisoned = true
+					break
 				}
 				if o.Blocked {
 					r.Blocked++
+					poisoned = true
 					break // one blocked run is a fact; do not wait for more time-outs
 				}
 				if o.Unclosed {
